@@ -50,6 +50,18 @@ func (c28src) GetEACL(cid.ID) (eacl.Table, error) {
 	return c28table(0x51), nil // the stored table
 }
 
+// c28derived models "the account is the one derived from this public key"
+// (elliptic-curve decoding and hashing). The real function is renamed to
+// isOwnerFromKey__real.
+var c28derived func(user.ID, []byte) bool
+
+func isOwnerFromKey(id user.ID, key []byte) bool {
+	if h := c28derived; h != nil {
+		return h(id, key)
+	}
+	return isOwnerFromKey__real(id, key)
+}
+
 var c28ops = [...]acl.Op{acl.OpObjectGet, acl.OpObjectHead, acl.OpObjectPut, acl.OpObjectDelete, acl.OpObjectSearch, acl.OpObjectRange, acl.OpObjectHash}
 var c28roles = [...]acl.Role{acl.RoleOwner, acl.RoleContainer, acl.RoleInnerRing, acl.RoleOthers}
 
@@ -70,6 +82,11 @@ func VerifC28ExtendedACL() {
 	if withAccount {
 		info.SenderAccount = &acc
 	}
+	// the account may or may not be the one derived from the sender key (it is
+	// not for N3 witnesses and for session issuers)
+	derived := vrt.Bool("senderAccountDerivedFromSenderKey")
+	c28derived = func(user.ID, []byte) bool { return derived }
+	defer func() { c28derived = nil }()
 	var gotKey, gotAcc []byte
 	eacl.VerifHookUnit = func(k, a []byte) { gotKey, gotAcc = k, a }
 	withBearer := vrt.Bool("bearerTokenPresent")
@@ -166,14 +183,21 @@ func VerifC28BasicAndSticky() {
 		one.AllowOp(op, role)
 		vrt.Assert(got == (b.Bits()&one.Bits() != 0), "owner and others are allowed exactly by their bit of the operation")
 	}
-	// sticky bit: only the key presence decides without elliptic-curve work
+	// sticky bit: the object owner must be the account derived from the requester's key
+	withKey := vrt.Bool("requesterKeyPresent")
 	info.SenderKey = nil
+	if withKey {
+		info.SenderKey = []byte{1}
+	}
+	isOwner := vrt.Bool("objectOwnerDerivedFromRequesterKey")
+	c28derived = func(_ user.ID, k []byte) bool { return k != nil && isOwner }
 	var owner [25]byte
 	sticky := c.StickyBitCheck(info, owner)
+	c28derived = nil
 	if role == acl.RoleContainer || !b.Sticky() {
 		vrt.Assert(sticky, "sticky bit has no effect on container nodes and when it is not set")
 	} else {
-		vrt.Assert(!sticky, "a sticky container refuses a put without a requester key")
+		vrt.Assert(sticky == (withKey && isOwner), "a sticky container accepts a put only from the requester the object's owner is derived from")
 	}
 	vrt.Reach("end")
 }
